@@ -186,9 +186,10 @@ def shared_function_defs(order="fg"):
     return pt.make_dict_of_named_arrays({k: d[k] for k in keys})
 
 
-def shared_buffers():
+def shared_buffers(changed_first=False):
     """data wrappers over one buffer (and tag-only twins) with shared consumers: transformations map
-    distinct nodes to equal results"""
+    distinct nodes to equal results; changed_first: the twin a tag-stripping transformation changes is
+    reached before the twin it leaves alone (a result equal to a *later, unchanged* node)"""
     pt = _pt()
     from vf import tagdefs
     buf = np.arange(4.0)
@@ -198,10 +199,17 @@ def shared_buffers():
     u = d2 + 1.0
     v = x * 2.0
     vt = (x * 2.0).tagged(tagdefs.UserArrayTag("only-difference"))
+    if changed_first:
+        return pt.make_dict_of_named_arrays({
+            "a": u * u + (d1 + 1.0),
+            "b": d1 - u,
+            "c": (vt * vt) + (v + 1.0),
+            "d": vt - v,
+        })
     return pt.make_dict_of_named_arrays({
         "a": (d1 + 1.0) + u * u,
         "b": u - d1,
-        "c": (v + 1.0) + (vt + 1.0) * (vt + 1.0) if False else (v + 1.0) + (vt * vt),
+        "c": (v + 1.0) + (vt * vt),
         "d": vt - v,
     })
 
@@ -228,6 +236,7 @@ def all_graphs(tier="quick"):
         ("shared-defs-gf", lambda: shared_function_defs("gf"), False),
         ("shared-defs-hgf", lambda: shared_function_defs("hgf"), False),
         ("shared-buffers", shared_buffers, False),
+        ("shared-buffers-changed-first", lambda: shared_buffers(True), False),
     ]
     if tier != "quick":
         G += [
